@@ -19,6 +19,7 @@ EXPLANATION = ("Deciding steps: (1) rustc's trait solver on generated `T: Send +
                "shared &T with no interior mutability anywhere in T + no mutable globals => a query cannot observe "
                "another, so each answer is a function of (*self, args). Scheduling needs no exploration once nothing "
                "is shared mutably.")
+EXPLANATION = EXPLANATION + ' (4) Nothing reachable from the query API reads a clock, the environment, a thread id, a random source or an address; (5) no iteration over a hash container (per-thread RandomState) on constructor, writer or query paths; (6) no data-driven recursion on the query paths (an answer must not depend on the stack size of the calling thread).'
 RULE_TEXT = ("one obligation per reachable public type (Send+Sync), per local ADT (type-tree walk), per static / "
              "unsafe block / unsafe impl / public method (inventory); non-trivial = the obligation concerns a type "
              "with at least one field or a method with a receiver")
